@@ -174,8 +174,13 @@ def run(ctx, chk):
     s2 = ip2.run(m)
     cn2 = Canon(ip2, ctx.layout)
     txt = [cn2.show(t) for _, t in s2.returns]
+    pairs = {(f_show(cn2.conj(tuple(c for c in pc if c[0] != "fact"))), cn2.show(t))
+             for pc, t in s2.returns}
     chk.ob("C17.routing", "Scenario.step_limit serves scenario_dict.get('step_limit', None)",
-           txt == ["self.scenario_dict.get('step_limit', None)"], str(txt), sc.module.path,
+           txt == ["('step_limit' in self.scenario_dict ? self.scenario_dict['step_limit'] : None)"]
+           or pairs == {("'step_limit' in self.scenario_dict", "self.scenario_dict['step_limit']"),
+                        ("!'step_limit' in self.scenario_dict", "None")},
+           str(sorted(pairs)), sc.module.path,
            nontrivial=False)
     # ---- key kinds
     for k in ("sensitive_hosts", "firewall", "host"):
